@@ -23,6 +23,19 @@ theorem append_refused_unchanged (s : MocSet) (e : MsEntry) (h : (msAppend s e).
     · rfl
     · rename_i h1 h2; simp [h1, h2] at h
 
+/-- **Command-line domain**: an identifier beyond 48 bits and the status `void` are refused and the file is unchanged; inside
+    the domain the commands are `append` / `chgstatus`.  (`mocset append set.bin 2^48+1` used to be stored as a second live
+    `1`; `chgstatus void` used to panic with the lock file left behind.) -/
+theorem cmd_domain (s : MocSet) (e : MsEntry) (st : Nat) (ids : List Nat) :
+    (e.id > idMask → msAppendCmd s e = (s, false)) ∧ (e.id ≤ idMask → msAppendCmd s e = msAppend s e) ∧
+    msChgStatusCmd s 0 ids = (s, false) ∧ (st ≠ 0 → msChgStatusCmd s st ids = msChgStatus s st ids) := by
+  refine ⟨fun h => ?_, fun h => ?_, ?_, fun h => ?_⟩
+  · simp [msAppendCmd, h]
+  · have : ¬ e.id > idMask := by omega
+    simp [msAppendCmd, this]
+  · simp [msChgStatusCmd]
+  · simp [msChgStatusCmd, h]
+
 /-- An append is refused exactly when the identifier is live or the file is full. -/
 theorem append_ok_iff (s : MocSet) (e : MsEntry) :
     (msAppend s e).2 = true ↔
